@@ -62,6 +62,7 @@ def generate(seed, tier):
         cfg["Lmin"] = 1
         cfg["custom_plan"] = SC.gen_custom_plan(rw, N, cfg["fs"], max_bins=6 if sim else 30, Lcap=40 if sim else None)
     if sim:
+        cfg["force_target_nf"] = False
         cfg["Jdes"] = min(cfg["Jdes"], 8)
     elif rw.random() < 0.04:
         N = rw.choice([1500, 3000])
